@@ -44,6 +44,16 @@ fn blob_program(s: &mut Src) -> Program {
             }
         }
     }
+    if s.chance(1, 8) && ops.iter().any(|o| matches!(o, Op::Image(_))) {
+        // a producer's own element in front of every image payload element, named like it but in its own namespace
+        // (e.g. a thumbnail): each image's descriptors must still lead to that image's own data
+        ops.insert(0, Op::Ext { prefix: "thumb".into(), url: "urn:verif:thumbnail".into() });
+        let pairs = ["jpegImage", "pngImage", "imageMask"]
+            .iter()
+            .map(|n| (format!("<{n} "), format!("<thumb:{n} type=\"Blob\" fileOffset=\"48\" length=\"{}\"/><{n} ", 1 + s.below(40))))
+            .collect();
+        return Program { guid: "{blob-file}".into(), ops, end: End::FinalizeReplace(pairs) };
+    }
     Program { guid: "{blob-file}".into(), ops, end: End::Finalize }
 }
 
@@ -146,6 +156,9 @@ impl Check for C06 {
         }
         let bytes = h.bytes();
         let free = prog::free_blobs(p);
+        if matches!(p.end, End::FinalizeReplace(_)) {
+            v.nt("foreign_blob_elements_in_image_representations");
+        }
         if p.ops.iter().any(|o| matches!(o, Op::BlobFailing { .. })) {
             v.nt("blobs_written_after_a_failed_add_blob");
         }
